@@ -3,7 +3,15 @@
 
 package p2p
 
-import "net"
+import (
+	"context"
+	"net"
+
+	"github.com/DOSNetwork/core/log"
+	"github.com/DOSNetwork/core/p2p/discover"
+	"github.com/DOSNetwork/core/suites"
+	"github.com/golang/protobuf/proto"
+)
 
 // Hooks for the verification harness (/verif). Built only with -tags verif.
 
@@ -21,3 +29,101 @@ func VerifWriteTo(b []byte, conn net.Conn) error { return writeTo(b, conn) }
 
 // VerifMsgSizeLimit is the frame size bound.
 const VerifMsgSizeLimit = msgSizeLimit
+
+// VerifNewServer is CreateP2PNetwork without the address discovery / NAT logic and with an
+// injected membership (peer lookup) and logger.
+func VerifNewServer(id []byte, ip net.IP, port string, members discover.Membership, l log.Logger) P2PInterface {
+	suite := suites.MustFind("bn256")
+	p := &server{
+		suite:           suite,
+		addIncomingC:    make(chan *client),
+		removeIncomingC: make(chan []byte),
+		replying:        make(chan p2pRequest),
+		calling:         make(chan p2pRequest),
+		removeCallingC:  make(chan []byte),
+		peersFeed:       make(chan P2PMessage, 5),
+		peersEvent:      make(chan discover.P2PEvent, 5),
+		subscribeMsg:    make(chan *subscription),
+		unscribeMsg:     make(chan string),
+		subscribeEvent:  make(chan *subscription),
+		unscribeEvent:   make(chan int),
+		port:            port,
+		logger:          l,
+	}
+	p.ctx, p.cancel = context.WithCancel(context.Background())
+	p.secKey = suite.Scalar().Pick(suite.RandomStream())
+	p.pubKey = suite.Point().Mul(p.secKey, nil)
+	p.id = id
+	p.addr = ip
+	p.members = members
+	return p
+}
+
+// VerifEncodeProto / VerifDecodeBytes expose the packet codec (no signature functions).
+func VerifEncodeProto(msg proto.Message, sender, signature []byte, nonce uint64, replyFlag bool) ([]byte, error) {
+	var signFn signFunc
+	if signature != nil {
+		signFn = func([]byte) ([]byte, error) { return signature, nil }
+	}
+	return encodeProto(msg, sender, signFn, nonce, replyFlag)
+}
+
+// VerifDecodeBytes decodes a packet; verify is called with (payload, signature) when non-nil.
+func VerifDecodeBytes(b []byte, verify func(msg, sig []byte) error) (sender []byte, nonce uint64, reply bool, msg proto.Message, err error) {
+	pa, ptr, err := decodeBytes(b, verify)
+	if err != nil {
+		return nil, 0, false, nil, err
+	}
+	return pa.GetSender(), pa.GetRequestNonce(), pa.GetReplyFlag(), ptr.Message, nil
+}
+
+// VerifDispatch runs the request/reply correlation goroutine of a client on harness-owned
+// channels (no connection). send: requests enter; out: what the client would put on the wire.
+type VerifDispatchHandles struct {
+	Cancel   context.CancelFunc
+	ReplyMsg chan P2PMessage
+	Received chan P2PMessage
+	Out      chan uint64 // nonce assigned to each request handed to the packer
+	Feed     chan P2PMessage
+	c        *client
+}
+
+func VerifNewDispatch() *VerifDispatchHandles {
+	c := &client{errc: make(chan error), peerSend: make(chan p2pRequest), peerFeed: make(chan P2PMessage)}
+	c.ctx, c.cancel = context.WithCancel(context.Background())
+	h := &VerifDispatchHandles{Cancel: c.cancel, ReplyMsg: make(chan P2PMessage), Received: make(chan P2PMessage),
+		Out: make(chan uint64), Feed: c.peerFeed, c: c}
+	out := c.dispatch(h.ReplyMsg, h.Received)
+	go func() {
+		for r := range out {
+			select {
+			case h.Out <- r.nonce:
+			case <-c.ctx.Done():
+				return
+			}
+		}
+	}()
+	return h
+}
+
+// VerifRequest is one pending request of the harness.
+type VerifRequest struct{ r *p2pRequest }
+
+// Send hands a new request to the dispatcher (blocks until it is accepted or ctx ends).
+func (h *VerifDispatchHandles) Send(ctx context.Context, msg proto.Message) (*VerifRequest, error) {
+	r := NewP2pRequest(ctx, sendReq, []byte("peer"), "", msg, 0)
+	return &VerifRequest{r}, r.sendReq(h.c.peerSend)
+}
+
+// Wait returns what the request completed with.
+func (v *VerifRequest) Wait() (P2PMessage, error) {
+	res, err := v.r.waitForResult()
+	if err != nil {
+		return P2PMessage{}, err
+	}
+	m, _ := res.(P2PMessage)
+	return m, nil
+}
+
+// Cancel cancels the request's context.
+func (v *VerifRequest) Cancel() { v.r.cancel() }
